@@ -11,6 +11,8 @@ import GoldilocksVerif.Lemmas.MerkleL
 import GoldilocksVerif.Lemmas.BridgeMerkle
 import GoldilocksVerif.Lemmas.BridgePerm
 import GoldilocksVerif.Lemmas.BridgeMerkleAvx
+import GoldilocksVerif.Lemmas.BridgeMerkleBatch
+import GoldilocksVerif.Lemmas.BridgeMerkle512
 
 namespace GoldilocksVerif.C08
 open GoldilocksVerif.Model
@@ -156,5 +158,228 @@ theorem C08_generated_merkletree_seq_root (fuel : Nat) (tree input t : Goldilock
 /-- non-vacuity: four rows give a 28-element buffer -/
 example : (merkleTree (fun r => r.take 4) (fun x => x.take 4) [[1,2,3,4],[5,6,7,8],[9,10,11,12],[13,14,15,16]]).length = 28 := by
   decide
+
+/-! ## The TRANSLATED batched builders `merkletree_batch_seq` and `merkletree_batch_avx`
+
+  For rows = 2^k (k ≤ 48), rows·cols·dim < 2^64, batch_size ≥ 1, cols + batch_size < 2^62 (so `num_cols + batch_size - 1` and
+  `nbatches * CAPACITY` do not wrap), every tree / input region, every `nThreads`, every fuel > rows, > cols·dim and
+  > 4·(cols + 1) (the linear hash of `buff0`, nbatches ≤ max cols 1): the builder returns, the first 4·(2·rows − 1) words of
+  the tree buffer are `Model.merkleTree (Model.batchLeaf lh cols dim batch)` of the rows, nothing beyond them is written.
+  num_cols = 0 is covered (nbatches = 1, nlastb = 0: the leaf is lh (lh [])).
+  Proofs: Lemmas/BridgeMerkleBatch.lean (generic in the two hashes). -/
+
+/-- translated `merkletree_batch_seq`, no hypothesis on the hashes -/
+theorem C08_generated_merkletree_batch_seq (fuel : Nat) (tree input : GoldilocksVerif.Region)
+    (num_cols num_rows batch_size : BitVec 64) (nThreads : Int) (dim : BitVec 64) (k : Nat)
+    (hR : num_rows.toNat = 2 ^ k) (hk : k ≤ 48) (hprod : 2 ^ k * (num_cols.toNat * dim.toNat) < 2 ^ 64)
+    (hb : 1 ≤ batch_size.toNat) (hcb : num_cols.toNat + batch_size.toNat < 2 ^ 62)
+    (hf1 : num_cols.toNat * dim.toNat < fuel) (hf2 : 2 ^ k < fuel) (hf3 : 4 * (num_cols.toNat + 1) < fuel) :
+    ∃ t, Gen.MerkleGen.Pos_merkletree_batch_seq fuel tree input num_cols num_rows batch_size nThreads dim = some t ∧
+      GoldilocksVerif.Region.toList t (4 * (2 * 2 ^ k - 1)) =
+        merkleTree (batchLeaf (linearHash GoldilocksVerif.permSeqList) num_cols.toNat dim.toNat batch_size.toNat)
+          (fun x => GoldilocksVerif.nodeSeqList (x ++ zeros 4))
+          (GoldilocksVerif.rowsOf input (num_cols.toNat * dim.toNat) (2 ^ k)) ∧
+      ∀ i, 4 * (2 * 2 ^ k - 1) ≤ i → t i = tree i := by
+  rw [GoldilocksVerif.mtb_seq_generic]
+  refine GoldilocksVerif.mtbGenG_spec _ (linearHash GoldilocksVerif.permSeqList) ?_ _ GoldilocksVerif.nodeSeqList
+    GoldilocksVerif.hash_seq_node fuel tree input num_cols num_rows batch_size dim k hR hk hprod hb hcb hf1 hf2 hf3
+  intro fuel out inp size hf
+  rw [GoldilocksVerif.lh_seq_generic]
+  exact GoldilocksVerif.lhGenG_spec _ GoldilocksVerif.permSeqList GoldilocksVerif.perm_seq_hP fuel out inp size hf
+
+/-- translated `merkletree_batch_avx`, no hypothesis on the hashes: leaf = batched sponge over the translated AVX2 permutation,
+    node = translated AVX2 `hash` -/
+theorem C08_generated_merkletree_batch_avx (fuel : Nat) (tree input : GoldilocksVerif.Region)
+    (num_cols num_rows batch_size : BitVec 64) (nThreads : Int) (dim : BitVec 64) (k : Nat)
+    (hR : num_rows.toNat = 2 ^ k) (hk : k ≤ 48) (hprod : 2 ^ k * (num_cols.toNat * dim.toNat) < 2 ^ 64)
+    (hb : 1 ≤ batch_size.toNat) (hcb : num_cols.toNat + batch_size.toNat < 2 ^ 62)
+    (hf1 : num_cols.toNat * dim.toNat < fuel) (hf2 : 2 ^ k < fuel) (hf3 : 4 * (num_cols.toNat + 1) < fuel) :
+    ∃ t, Gen.MerkleGen.Pos_merkletree_batch_avx fuel tree input num_cols num_rows batch_size nThreads dim = some t ∧
+      GoldilocksVerif.Region.toList t (4 * (2 * 2 ^ k - 1)) =
+        merkleTree (batchLeaf (linearHash GoldilocksVerif.permAvxList) num_cols.toNat dim.toNat batch_size.toNat)
+          (fun x => GoldilocksVerif.nodeAvxList (x ++ zeros 4))
+          (GoldilocksVerif.rowsOf input (num_cols.toNat * dim.toNat) (2 ^ k)) ∧
+      ∀ i, 4 * (2 * 2 ^ k - 1) ≤ i → t i = tree i := by
+  rw [GoldilocksVerif.mtb_avx_generic]
+  refine GoldilocksVerif.mtbGenG_spec _ (linearHash GoldilocksVerif.permAvxList) ?_ _ GoldilocksVerif.nodeAvxList
+    GoldilocksVerif.hash_avx_node fuel tree input num_cols num_rows batch_size dim k hR hk hprod hb hcb hf1 hf2 hf3
+  intro fuel out inp size hf
+  rw [GoldilocksVerif.lh_avx_generic]
+  exact GoldilocksVerif.lhGenG_spec _ GoldilocksVerif.permAvxList GoldilocksVerif.perm_avx_hP fuel out inp size hf
+
+/-! ## The TRANSLATED AVX512 builder `merkletree_avx512` and the default wrapper `merkletree`
+
+  The leaf loop hashes two rows per iteration through the translated `linear_hash_avx512` (8 words = two digests written at
+  tree + 4·i); for rows = 2^k the odd-last-row branch (one-state `linear_hash`) is taken exactly when rows = 1.  The level loop
+  calls the AVX2 `hash`.  Unconditionally (`C08_generated_merkletree_avx512`): the leaf level is `leaves512` = the pair digests
+  `linearHash512 perm512List (row_2m ++ row_2m+1)` in order (first half = digest slot of row 2m, second half = slot of row
+  2m+1), followed by the pairwise levels (`treeOfLeaves` = `Model.merkleTree` with the leaf level given).  That the two halves
+  are the one-row sponges needs C06's interleaving statement about the two-state permutation BIT FOR BIT (C06 has it at field
+  level only): with it as hypothesis (`C08_generated_merkletree_avx512_is_tree`) the buffer is
+  `Model.merkleTree (linearHash permAvxList) node rows`, the tree `C08_generated_merkletree_avx_is_tree` gives for the AVX2 builder.
+  Proofs: Lemmas/BridgeMerkle512.lean. -/
+
+/-- translated `merkletree_avx512`, no hypothesis on the hashes -/
+theorem C08_generated_merkletree_avx512 (fuel : Nat) (tree input : GoldilocksVerif.Region) (num_cols num_rows : BitVec 64)
+    (nThreads : Int) (dim : BitVec 64) (k : Nat)
+    (hR : num_rows.toNat = 2 ^ k) (hk : k ≤ 48) (hprod : 2 ^ k * (num_cols.toNat * dim.toNat) < 2 ^ 64)
+    (hf1 : num_cols.toNat * dim.toNat < fuel) (hf2 : 2 ^ k < fuel) :
+    ∃ t, Gen.MerkleGen.Pos_merkletree_avx512 fuel tree input num_cols num_rows nThreads dim = some t ∧
+      GoldilocksVerif.Region.toList t (4 * (2 * 2 ^ k - 1)) =
+        GoldilocksVerif.treeOfLeaves (fun x => GoldilocksVerif.nodeAvxList (x ++ zeros 4)) (2 ^ k)
+          (GoldilocksVerif.leaves512 (linearHash GoldilocksVerif.permAvxList) (linearHash512 GoldilocksVerif.perm512List)
+            input (num_cols.toNat * dim.toNat) k) ∧
+      ∀ i, 4 * (2 * 2 ^ k - 1) ≤ i → t i = tree i := by
+  rw [GoldilocksVerif.mt512_generic]
+  refine GoldilocksVerif.mt512GenG_spec _ _ (linearHash GoldilocksVerif.permAvxList)
+    (linearHash512 GoldilocksVerif.perm512List) ?_ ?_ _ GoldilocksVerif.nodeAvxList GoldilocksVerif.hash_avx_node
+    fuel tree input num_cols num_rows dim k hR hk hprod hf1 hf2
+  · intro fuel out inp size hf
+    rw [GoldilocksVerif.lh_avx_generic]
+    exact GoldilocksVerif.lhGenG_spec _ GoldilocksVerif.permAvxList GoldilocksVerif.perm_avx_hP fuel out inp size hf
+  · intro fuel out inp size hf
+    rw [GoldilocksVerif.lh512_generic]
+    exact GoldilocksVerif.lh512GenG_spec _ GoldilocksVerif.perm512List GoldilocksVerif.perm512_hP fuel out inp size hf
+
+/-- two equally long inputs through `linearHash512 perm512List` = the two `linearHash permAvxList` digests, under the
+    interleaving hypothesis (C07_avx512) -/
+theorem C08_pair_digests
+    (h : ∀ a b, a.length = 12 → b.length = 12 →
+      GoldilocksVerif.perm512List (interleave a b) = interleave (GoldilocksVerif.permAvxList a) (GoldilocksVerif.permAvxList b))
+    (a b : List Wd) (hl : a.length = b.length) :
+    linearHash512 GoldilocksVerif.perm512List (a ++ b) a.length =
+      linearHash GoldilocksVerif.permAvxList a ++ linearHash GoldilocksVerif.permAvxList b :=
+  linearHash512_eq GoldilocksVerif.permAvxList GoldilocksVerif.perm512List h
+    (fun s _ => GoldilocksVerif.permAvxList_length s) a b hl
+
+/-- translated `merkletree_avx512` builds the SAME tree as the translated AVX2 builder, the one remaining hypothesis being the
+    interleaving statement about the translated two-state permutation (bit for bit) -/
+theorem C08_generated_merkletree_avx512_is_tree
+    (h : ∀ a b, a.length = 12 → b.length = 12 →
+      GoldilocksVerif.perm512List (interleave a b) = interleave (GoldilocksVerif.permAvxList a) (GoldilocksVerif.permAvxList b))
+    (fuel : Nat) (tree input : GoldilocksVerif.Region) (num_cols num_rows : BitVec 64)
+    (nThreads : Int) (dim : BitVec 64) (k : Nat)
+    (hR : num_rows.toNat = 2 ^ k) (hk : k ≤ 48) (hprod : 2 ^ k * (num_cols.toNat * dim.toNat) < 2 ^ 64)
+    (hf1 : num_cols.toNat * dim.toNat < fuel) (hf2 : 2 ^ k < fuel) :
+    ∃ t, Gen.MerkleGen.Pos_merkletree_avx512 fuel tree input num_cols num_rows nThreads dim = some t ∧
+      GoldilocksVerif.Region.toList t (4 * (2 * 2 ^ k - 1)) =
+        merkleTree (linearHash GoldilocksVerif.permAvxList) (fun x => GoldilocksVerif.nodeAvxList (x ++ zeros 4))
+          (GoldilocksVerif.rowsOf input (num_cols.toNat * dim.toNat) (2 ^ k)) ∧
+      ∀ i, 4 * (2 * 2 ^ k - 1) ≤ i → t i = tree i := by
+  obtain ⟨t, h1, h2, h3⟩ := C08_generated_merkletree_avx512 fuel tree input num_cols num_rows nThreads dim k hR hk hprod hf1 hf2
+  refine ⟨t, h1, ?_, h3⟩
+  rw [h2, GoldilocksVerif.merkleTree_eq_treeOfLeaves, GoldilocksVerif.leaves512_rows _ _ (C08_pair_digests h)]
+
+/-- the default wrapper `merkletree` (this build: it calls `merkletree_avx512`): the same two statements -/
+theorem C08_generated_merkletree_default (fuel : Nat) (tree input : GoldilocksVerif.Region) (num_cols num_rows : BitVec 64)
+    (nThreads : Int) (dim : BitVec 64) (k : Nat)
+    (hR : num_rows.toNat = 2 ^ k) (hk : k ≤ 48) (hprod : 2 ^ k * (num_cols.toNat * dim.toNat) < 2 ^ 64)
+    (hf1 : num_cols.toNat * dim.toNat < fuel) (hf2 : 2 ^ k < fuel) :
+    ∃ t, Gen.MerkleGen.Pos_merkletree fuel tree input num_cols num_rows nThreads dim = some t ∧
+      GoldilocksVerif.Region.toList t (4 * (2 * 2 ^ k - 1)) =
+        GoldilocksVerif.treeOfLeaves (fun x => GoldilocksVerif.nodeAvxList (x ++ zeros 4)) (2 ^ k)
+          (GoldilocksVerif.leaves512 (linearHash GoldilocksVerif.permAvxList) (linearHash512 GoldilocksVerif.perm512List)
+            input (num_cols.toNat * dim.toNat) k) ∧
+      (∀ i, 4 * (2 * 2 ^ k - 1) ≤ i → t i = tree i) ∧
+      ((∀ a b, a.length = 12 → b.length = 12 → GoldilocksVerif.perm512List (interleave a b) =
+          interleave (GoldilocksVerif.permAvxList a) (GoldilocksVerif.permAvxList b)) →
+        GoldilocksVerif.Region.toList t (4 * (2 * 2 ^ k - 1)) =
+          merkleTree (linearHash GoldilocksVerif.permAvxList) (fun x => GoldilocksVerif.nodeAvxList (x ++ zeros 4))
+            (GoldilocksVerif.rowsOf input (num_cols.toNat * dim.toNat) (2 ^ k))) := by
+  rw [GoldilocksVerif.mt_default_generic]
+  obtain ⟨t, h1, h2, h3⟩ := C08_generated_merkletree_avx512 fuel tree input num_cols num_rows nThreads dim k hR hk hprod hf1 hf2
+  refine ⟨t, h1, h2, h3, fun h => ?_⟩
+  rw [h2, GoldilocksVerif.merkleTree_eq_treeOfLeaves, GoldilocksVerif.leaves512_rows _ _ (C08_pair_digests h)]
+
+/-! ## The TRANSLATED `merkletree_batch_avx512` and the default wrapper `merkletree_batch`
+
+  Two rows per iteration: per column batch one `linear_hash_avx512` of the two row slices copied back to back into `buff1`
+  (`memcpy` of dim·nn·8 bytes: cols·dim < 2^61 so the byte count does not wrap), first digest halves to buff0[0 .. 4·nbatches),
+  second halves to buff0[4·nbatches .. 8·nbatches), then one `linear_hash_avx512` of the two halves of buff0
+  (`GoldilocksVerif.batchLeaf512`); rows = 1 goes through the one-state branch (= the AVX2 batched leaf).  cols + batch_size < 2^61
+  (buff0 has 8·nbatches words).  As for `merkletree_avx512`: unconditional statement with the pair digests
+  (`leavesB512`), and `Model.merkleTree (Model.batchLeaf (linearHash permAvxList) ..)` under the bit-for-bit interleaving
+  hypothesis.  Proofs: Lemmas/BridgeMerkle512.lean. -/
+
+/-- translated `merkletree_batch_avx512`, no hypothesis on the hashes -/
+theorem C08_generated_merkletree_batch_avx512 (fuel : Nat) (tree input : GoldilocksVerif.Region)
+    (num_cols num_rows batch_size : BitVec 64) (nThreads : Int) (dim : BitVec 64) (k : Nat)
+    (hR : num_rows.toNat = 2 ^ k) (hk : k ≤ 48) (hprod : 2 ^ k * (num_cols.toNat * dim.toNat) < 2 ^ 64)
+    (h61 : num_cols.toNat * dim.toNat < 2 ^ 61)
+    (hb : 1 ≤ batch_size.toNat) (hcb : num_cols.toNat + batch_size.toNat < 2 ^ 61)
+    (hf1 : num_cols.toNat * dim.toNat < fuel) (hf2 : 2 ^ k < fuel) (hf3 : 4 * (num_cols.toNat + 1) < fuel) :
+    ∃ t, Gen.MerkleGen.Pos_merkletree_batch_avx512 fuel tree input num_cols num_rows batch_size nThreads dim = some t ∧
+      GoldilocksVerif.Region.toList t (4 * (2 * 2 ^ k - 1)) =
+        GoldilocksVerif.treeOfLeaves (fun x => GoldilocksVerif.nodeAvxList (x ++ zeros 4)) (2 ^ k)
+          (GoldilocksVerif.leavesB512 (linearHash GoldilocksVerif.permAvxList) (linearHash512 GoldilocksVerif.perm512List)
+            input num_cols.toNat dim.toNat batch_size.toNat k) ∧
+      ∀ i, 4 * (2 * 2 ^ k - 1) ≤ i → t i = tree i := by
+  rw [GoldilocksVerif.mtb512_generic]
+  refine GoldilocksVerif.mtb512GenG_spec _ _ (linearHash GoldilocksVerif.permAvxList)
+    (linearHash512 GoldilocksVerif.perm512List) ?_ ?_ _ GoldilocksVerif.nodeAvxList GoldilocksVerif.hash_avx_node
+    fuel tree input num_cols num_rows batch_size dim k hR hk hprod h61 hb hcb hf1 hf2 hf3
+  · intro fuel out inp size hf
+    rw [GoldilocksVerif.lh_avx_generic]
+    exact GoldilocksVerif.lhGenG_spec _ GoldilocksVerif.permAvxList GoldilocksVerif.perm_avx_hP fuel out inp size hf
+  · intro fuel out inp size hf
+    rw [GoldilocksVerif.lh512_generic]
+    exact GoldilocksVerif.lh512GenG_spec _ GoldilocksVerif.perm512List GoldilocksVerif.perm512_hP fuel out inp size hf
+
+/-- translated `merkletree_batch_avx512` builds the SAME tree as the translated AVX2 batched builder, under the interleaving
+    hypothesis about the translated two-state permutation (bit for bit) -/
+theorem C08_generated_merkletree_batch_avx512_is_tree
+    (h : ∀ a b, a.length = 12 → b.length = 12 →
+      GoldilocksVerif.perm512List (interleave a b) = interleave (GoldilocksVerif.permAvxList a) (GoldilocksVerif.permAvxList b))
+    (fuel : Nat) (tree input : GoldilocksVerif.Region)
+    (num_cols num_rows batch_size : BitVec 64) (nThreads : Int) (dim : BitVec 64) (k : Nat)
+    (hR : num_rows.toNat = 2 ^ k) (hk : k ≤ 48) (hprod : 2 ^ k * (num_cols.toNat * dim.toNat) < 2 ^ 64)
+    (h61 : num_cols.toNat * dim.toNat < 2 ^ 61)
+    (hb : 1 ≤ batch_size.toNat) (hcb : num_cols.toNat + batch_size.toNat < 2 ^ 61)
+    (hf1 : num_cols.toNat * dim.toNat < fuel) (hf2 : 2 ^ k < fuel) (hf3 : 4 * (num_cols.toNat + 1) < fuel) :
+    ∃ t, Gen.MerkleGen.Pos_merkletree_batch_avx512 fuel tree input num_cols num_rows batch_size nThreads dim = some t ∧
+      GoldilocksVerif.Region.toList t (4 * (2 * 2 ^ k - 1)) =
+        merkleTree (batchLeaf (linearHash GoldilocksVerif.permAvxList) num_cols.toNat dim.toNat batch_size.toNat)
+          (fun x => GoldilocksVerif.nodeAvxList (x ++ zeros 4))
+          (GoldilocksVerif.rowsOf input (num_cols.toNat * dim.toNat) (2 ^ k)) ∧
+      ∀ i, 4 * (2 * 2 ^ k - 1) ≤ i → t i = tree i := by
+  obtain ⟨t, h1, h2, h3⟩ := C08_generated_merkletree_batch_avx512 fuel tree input num_cols num_rows batch_size nThreads dim k
+    hR hk hprod h61 hb hcb hf1 hf2 hf3
+  refine ⟨t, h1, ?_, h3⟩
+  rw [h2, GoldilocksVerif.merkleTree_eq_treeOfLeaves,
+    GoldilocksVerif.leavesB512_rows _ _ (C08_pair_digests h)
+      (GoldilocksVerif.linearHash_length _ (fun s => by rw [GoldilocksVerif.permAvxList_length]; omega)) _ _ _ _ _ hb]
+
+/-- the default wrapper `merkletree_batch` (this build: it calls `merkletree_batch_avx512`): the same two statements -/
+theorem C08_generated_merkletree_batch_default (fuel : Nat) (tree input : GoldilocksVerif.Region)
+    (num_cols num_rows batch_size : BitVec 64) (nThreads : Int) (dim : BitVec 64) (k : Nat)
+    (hR : num_rows.toNat = 2 ^ k) (hk : k ≤ 48) (hprod : 2 ^ k * (num_cols.toNat * dim.toNat) < 2 ^ 64)
+    (h61 : num_cols.toNat * dim.toNat < 2 ^ 61)
+    (hb : 1 ≤ batch_size.toNat) (hcb : num_cols.toNat + batch_size.toNat < 2 ^ 61)
+    (hf1 : num_cols.toNat * dim.toNat < fuel) (hf2 : 2 ^ k < fuel) (hf3 : 4 * (num_cols.toNat + 1) < fuel) :
+    ∃ t, Gen.MerkleGen.Pos_merkletree_batch fuel tree input num_cols num_rows batch_size nThreads dim = some t ∧
+      GoldilocksVerif.Region.toList t (4 * (2 * 2 ^ k - 1)) =
+        GoldilocksVerif.treeOfLeaves (fun x => GoldilocksVerif.nodeAvxList (x ++ zeros 4)) (2 ^ k)
+          (GoldilocksVerif.leavesB512 (linearHash GoldilocksVerif.permAvxList) (linearHash512 GoldilocksVerif.perm512List)
+            input num_cols.toNat dim.toNat batch_size.toNat k) ∧
+      (∀ i, 4 * (2 * 2 ^ k - 1) ≤ i → t i = tree i) ∧
+      ((∀ a b, a.length = 12 → b.length = 12 → GoldilocksVerif.perm512List (interleave a b) =
+          interleave (GoldilocksVerif.permAvxList a) (GoldilocksVerif.permAvxList b)) →
+        GoldilocksVerif.Region.toList t (4 * (2 * 2 ^ k - 1)) =
+          merkleTree (batchLeaf (linearHash GoldilocksVerif.permAvxList) num_cols.toNat dim.toNat batch_size.toNat)
+            (fun x => GoldilocksVerif.nodeAvxList (x ++ zeros 4))
+            (GoldilocksVerif.rowsOf input (num_cols.toNat * dim.toNat) (2 ^ k))) := by
+  rw [GoldilocksVerif.mtb_default_generic]
+  obtain ⟨t, h1, h2, h3⟩ := C08_generated_merkletree_batch_avx512 fuel tree input num_cols num_rows batch_size nThreads dim k
+    hR hk hprod h61 hb hcb hf1 hf2 hf3
+  refine ⟨t, h1, h2, h3, fun h => ?_⟩
+  rw [h2, GoldilocksVerif.merkleTree_eq_treeOfLeaves,
+    GoldilocksVerif.leavesB512_rows _ _ (C08_pair_digests h)
+      (GoldilocksVerif.linearHash_length _ (fun s => by rw [GoldilocksVerif.permAvxList_length]; omega)) _ _ _ _ _ hb]
+
+/-- non-vacuity of the pair leaf level: with `leaf2` = "hash both halves separately" the AVX512 leaf level of four rows is
+    the level of the four row digests -/
+example : GoldilocksVerif.leaves512 (fun r => r.take 4) (fun l n => (l.take n).take 4 ++ (l.drop n).take 4)
+    (GoldilocksVerif.Region.ofList [1,2,3,4,5,6,7,8,9,10,11,12,13,14,15,16,17,18,19,20]) 5 2 =
+    [1,2,3,4, 6,7,8,9, 11,12,13,14, 16,17,18,19] := by decide
 
 end GoldilocksVerif.C08
